@@ -5,7 +5,7 @@ import glob, json, os, re
 V = os.path.join(os.path.dirname(os.path.abspath(__file__)), "..")
 
 def seeded():
-    rows = ["| Seeded change | Breaks | Needs | Result of the check(s) | Caught by | Replay |", "|---|---|---|---|---|---|"]
+    rows = ["| Seeded change | Breaks | Needs | First run | Result of the check(s) now | Caught by | Replay |", "|---|---|---|---|---|---|---|"]
     for d in sorted(glob.glob(os.path.join(V, "seeded", "C*"))):
         m = json.load(open(os.path.join(d, "meta.json")))
         name = os.path.basename(d)
@@ -13,8 +13,9 @@ def seeded():
         if len(needs) > 160:
             needs = needs[:157] + "..."
         for i, r in enumerate(m.get("check_results", [])):
-            rows.append("| %s | %s | %s | `%s`: %s | %s | %s |" % (
+            rows.append("| %s | %s | %s | %s | `%s`: %s | %s | %s |" % (
                 name if i == 0 else "", m.get("property", "") if i == 0 else "", needs if i == 0 else "",
+                ("missed" if "MISSED" in m.get("first_run", "") else "no replay" if m.get("first_run") else "caught") if i == 0 else "",
                 r["cmd"].replace("|", "/"), r["outcome"].replace("|", "/"), r["caught_by"].replace("|", "/"), r["replay"].replace("|", "/")))
     return "\n".join(rows)
 
